@@ -333,8 +333,11 @@ def rule_R4(ctx, prj):
     sp = [c for c in l2i.calls() if isinstance(c.func, ast.Attribute) and c.func.attr == "split"]
     if sp and all(c.args and const_str(c.args[0]) == "\n" for c in sp):
         ctx.ok("R4", l2i.site(), "location_to_index: lines = code.split('\\n')")
-    elif sp:
+    elif sp and any(not c.args or (const_str(c.args[0]) is not None and const_str(c.args[0]) != "\n") for c in sp):
         ctx.viol("R4", "location_to_index/split", l2i.site(sp[0]), f"location_to_index splits lines with {unparse(sp[0])[:40]}")
+    elif sp:
+        # the separator is not a literal here (a named constant, an attribute): what it is, is not read off the syntax
+        ctx.info(f"R4: location_to_index splits with {unparse(sp[0])[:40]}: separator not a literal, not judged")
 
 
 def rule_R5(ctx, prj):
